@@ -75,7 +75,9 @@ def has_direct_cut(e):
 
 class Ref:
     def __init__(self, rules, text, ws=r'\s+', comments=None, eol_comments=None, nameguard=None,
-                 ignorecase=False, namechars='', keywords=(), actions=None, lr=True, max_steps=200000):
+                 ignorecase=False, namechars='', keywords=(), actions=None, lr=True, max_steps=200000, group_scopes_cut=False):
+        self.group_scopes_cut = group_scopes_cut   # the documented reading of U7 (the engine's: a plain group is transparent to cuts)
+        self.u7_lookahead = False
         self.rules = {}
         self.ruleinfo = {}
         for r in rules:
@@ -185,6 +187,8 @@ class Ref:
         if k == 'grp':
             if has_direct_cut(e[1]):
                 self.flags.add('U7')
+                if self.group_scopes_cut:
+                    return self.ev(e[1], p, Scope())
             return self.ev(e[1], p, sc)
         if k == 'skipgrp':
             p, i, b = self.ev(e[1], p, Scope())
@@ -208,11 +212,13 @@ class Ref:
         if k == 'and':
             if has_direct_cut(e[1]):
                 self.flags.add('U7')
+                self.u7_lookahead = True
             self.ev(e[1], p, Scope())
             return p, [], []
         if k == 'not':
             if has_direct_cut(e[1]):
                 self.flags.add('U7')
+                self.u7_lookahead = True
             try:
                 self.ev(e[1], p, Scope())
             except PFail:
